@@ -81,7 +81,7 @@ func wtrims(ss ...string) string {
 	return wlist(items...)
 }
 
-func ruleKind(r rules.Rule) string {
+func c12RuleKind(r rules.Rule) string {
 	switch r.(type) {
 	case *rules.NetworkRule:
 		return "net"
@@ -107,7 +107,7 @@ func genC12NewRule(r *rng, n int, w *bufio.Writer) {
 			case rule == nil:
 				return "none"
 			default:
-				return fmt.Sprintf("%s:%s:%d", ruleKind(rule), wb(rule.Text()), rule.GetFilterListID())
+				return fmt.Sprintf("%s:%s:%d", c12RuleKind(rule), wb(rule.Text()), rule.GetFilterListID())
 			}
 		})
 		trimmed := strings.TrimSpace(line)
